@@ -24,6 +24,7 @@ TABLE = [
     ("C04", r".*", r"term\.|safety", ["termination"]),
     ("C17", r"matrix_sub|matrix_add", r".*", ["matrix_arith_dense_model"]),
     ("C17", r".*", r".*", ["matrix_dense_model"]),
+    ("C16", r"lucx", r"max_tracks|maximal|multipliers", ["complex_multiplier_modulus", "lu_small"]),
     ("C16", r".*", r".*", ["lu_small"]),
     ("C15", r".*", r".*", ["default_mass"]),
     ("C05", r".*", r".*", ["teval_terminal"]),
